@@ -52,6 +52,10 @@ def main():
     gen = _d.datetime(2020, 1, 1, tzinfo=UTC)
     dts = record_set(seed)
     recs = [desc(d, [d, dts[(i + 1) % len(dts)]], "r%d" % i, _generated=gen) for i, d in enumerate(dts)]
+    # epoch numbers and ISO text are instants too: they must not depend on the process time zone
+    for i, e in enumerate([0, 1, 1521731723, 1521731723.5, -86400, 86399.999999, 4102444800, "2023-01-10T16:12:01",
+                           "2023-01-10T16:12:01+02:00", "2023-01-10T16:12:01Z"]):
+        recs.append(desc(e, [e], "e%d" % i, _generated=gen))
     res = {"display": repr(ft.DISPLAY_TZINFO), "n": len(recs)}
 
     class Keep(io.BytesIO):
